@@ -17,6 +17,7 @@ from mc.runner import Result
 
 PROPERTY = "C09"
 LEVEL = "model_checking"
+TECHNIQUE = "explicit-state exploration of planner inputs (all small code arrays, all incidence matrices) with invariants, plus graph reachability (dependency closures) and provenance decoding"
 ENGINE = "E6"
 RULE = (
     "planner leg: state = (code array over {-1,0,1,2,3}, chunk layout, merge, expected_groups) for all 1-D arrays up to n and "
